@@ -89,7 +89,9 @@ impl TokenType {
 }
 pub enum Query { ProveIdentity(Vec<u8>), Other() }
 pub struct QueryService { x: u8 }
-pub struct ConnectionInfo { pub conn_id: Uid }
+pub type MeetingToken = [u8; 7];
+//@ extract src/network/mod.rs :: struct ConnectionInfo
+//@ end
 pub struct Mutex<T> { x: Option<T> }
 impl Mutex<Vec<u8>> {
     #[verifier::external_body]
